@@ -207,8 +207,11 @@ pub fn var_pk_from_secret(sk: &[u8; 32]) -> [u8; VAR_PK_LEN] {
 }
 
 /// sig[0] = total length, sig[1..] = keccak stream over (pk, msg). No security intended.
+pub const VAR_MIN_SIG_LEN: usize = 17;
+
 pub fn var_sign(pk: &[u8], msg: &[u8], len: usize) -> Vec<u8> {
-    let len = len.clamp(1, 255);
+    // at least 16 bytes of hash material, or the toy signature would bind nothing
+    let len = len.clamp(VAR_MIN_SIG_LEN, 255);
     let mut out = vec![len as u8];
     let mut ctr = 0u8;
     while out.len() < len {
@@ -224,7 +227,7 @@ pub fn var_sign(pk: &[u8], msg: &[u8], len: usize) -> Vec<u8> {
 }
 
 pub fn var_verify(pk: &[u8], msg: &[u8], sig: &[u8]) -> bool {
-    if sig.is_empty() || sig.len() > 255 || usize::from(sig[0]) != sig.len() {
+    if sig.len() < VAR_MIN_SIG_LEN || sig.len() > 255 || usize::from(sig[0]) != sig.len() {
         return false;
     }
     var_sign(pk, msg, sig.len()) == sig
